@@ -82,18 +82,43 @@ Print Assumptions c12_env_validator_decides.
    stop signal = the declared value when non-empty; volumes = the declared set;
    Env as in c12_env; labels = annotations overridden by source/revision (the
    VCS URL cut at its FIRST '@', only when it has one) and by created; created
-   time; platform = ToOCIPlatform(arch); OS linux. *)
-Theorem c12_config_mapping : forall shlex rfc3339 base ic created arch dord eord,
+   time; platform = ToOCIPlatform(arch); OS linux. 
+   FULL STATEMENT (false of the code today, see c12_config_mapping_refuted):
+     forall shlex rfc3339 base ic created arch dord eord, <hypotheses below> ->
+       match build_config ... with
+       | Ok cfg => ConfigMirrors shlex rfc3339 (to_oci_platform arch) base ic created cfg
+       | Err => shlex_failed shlex ic | _ => False end.
+   What is missing: BuildImageFromLayers works on a copy made by
+   ImageConfiguration.MergeInto, which does not carry VCSUrl, so the
+   source/revision labels are never written (finding C12-F2). Proved instead,
+   for every input: the config mirrors the configuration with its VCS URL
+   erased — i.e. every clause of ConfigMirrors except the source/revision
+   labels — and mirrors the configuration itself whenever the VCS URL has no
+   revision to record (empty, or without '@'). *)
+Theorem c12_config_mapping_partial : forall shlex rfc3339 base ic created arch dord eord,
   NoDup (akeys (ic_env ic)) ->
   Permutation dord (akeys default_env) ->
   Permutation eord (akeys (with_defaults default_env dord (ic_env ic))) ->
   match build_config shlex rfc3339 base ic created arch dord eord with
-  | Ok cfg => ConfigMirrors shlex rfc3339 (to_oci_platform arch) base ic created cfg
+  | Ok cfg => ConfigMirrors shlex rfc3339 (to_oci_platform arch) base (copy_for_build ic) created cfg /\
+              (vcs_has_revision ic = false ->
+               ConfigMirrors shlex rfc3339 (to_oci_platform arch) base ic created cfg)
   | Err => shlex_failed shlex ic
   | _ => False
   end.
-Proof. exact build_config_mirrors. Qed.
-Print Assumptions c12_config_mapping.
+Proof. exact build_config_mirrors_partial. Qed.
+Print Assumptions c12_config_mapping_partial.
+
+Theorem c12_config_mapping_refuted :
+  exists shlex rfc3339 base ic created arch dord eord cfg,
+    NoDup (akeys (ic_env ic)) /\
+    Permutation dord (akeys default_env) /\
+    Permutation eord (akeys (with_defaults default_env dord (ic_env ic))) /\
+    build_config shlex rfc3339 base ic created arch dord eord = Ok cfg /\
+    alookup revision_key (oc_labels cfg) = None /\
+    ~ ConfigMirrors shlex rfc3339 (to_oci_platform arch) base ic created cfg.
+Proof. exact build_config_mirrors_refuted. Qed.
+Print Assumptions c12_config_mapping_refuted.
 
 (* strings.Cut at the first separator, as the specification of the VCS split *)
 Theorem c12_vcs_cut : forall s url hash,
@@ -124,7 +149,7 @@ Example c12_config_example :
          ic_env := [("PATH", "/bin")]; ic_annotations := [("a", "b")]; ic_vcs_url := "https://x/y@abc@def" |}
       1700000000 "armv7" ["PATH"; "SSL_CERT_FILE"] ["PATH"; "SSL_CERT_FILE"] = Ok cfg /\
     oc_entrypoint cfg = ["/usr/bin/app"; "--flag"] /\ oc_variant cfg = "v7" /\
-    alookup "org.opencontainers.image.revision" (oc_labels cfg) = Some "abc@def" /\
+    alookup "org.opencontainers.image.revision" (oc_labels cfg) = None (* C12-F2 *) /\
     oc_env cfg = ["PATH=/bin"; "SSL_CERT_FILE=/etc/ssl/certs/ca-certificates.crt"].
 Proof. eexists. split; [vm_compute; reflexivity|]. repeat split. Qed.
 
